@@ -204,6 +204,15 @@ def run(chk, F, tier):
     chk.expect("N2.reject", "fallthrough", len(fall) >= 1 and all(
         (isinstance(p.ret, tuple) and ((p.ret[0] == "agg" and p.ret[3] == "Err") or p.ret[0] == "from_residual")) for p in fall),
         "a path of FromStr on which no name matched does not return Err: %s" % [mir.fmt(p.ret)[:80] for p in fall])
+    chk.rule("N2.whole", floor=6, doc="a parameterless code is produced only when the whole input equals its name")
+    for name, ents in sorted(list(whole.items()) + list(prefix.items())):
+        for e in ents:
+            var = e.get("variant")
+            if var is None or cc.VARIANT.get(var, (None, None))[1] is not None:
+                continue
+            chk.expect("N2.whole", "%s:%s" % (name, var), e["subject"] == s_arg,
+                       "FromStr yields the parameterless Codes::%s when only a part of the input (%s) equals %r: text such as %s(3) is accepted instead of rejected"
+                       % (var, mir.fmt(e["subject"])[:60], name, name), sample={"name": name, "variant": var})
     chk.rule("N2.propagate", floor=4, doc="every Option/Result on the parameter path is propagated with `?`, never defaulted")
     bad_calls = ("unwrap_or", "unwrap_or_default", "unwrap_or_else", "unwrap", "expect", "::ok", "unwrap_unchecked")
     seen_try = set()
